@@ -63,6 +63,7 @@ struct LeafCfg {
     float b_min = -100, b_max = 100;
     std::vector<std::string> opts = {"sine", "saw", "square"};
     // port name of the logical port "val" (depends on "mode"): "val", or a name that starts with its dependency's name
+    int preset_lo = 0;            // the preset selector takes the values preset_lo and preset_lo+1 (0/1, or -1/0: a negative selector)
     std::string val_name = "val";
     std::string pname(const std::string &n) const { return n == "val" ? val_name : n; }
     // which ports exist and in which order
@@ -86,7 +87,7 @@ static Cfg *G = nullptr;
 static inline void reset_leaf(Leaf &l, const LeafCfg &c, int preset = 0)
 {
     memset(&l, 0, sizeof l);
-    l.preset = preset;
+    l.preset = c.preset_lo + preset;     // `preset` is the index 0/1
     l.a = c.a_def[c.a_depends ? preset : 0];
     l.b = c.b_def[c.b_depends ? preset : 0];
     l.c = (unsigned char)c.c_def; l.t = c.t_def; l.o = c.o_def;
@@ -154,10 +155,10 @@ static void leaf_preset_cb(const char *msg, rtosc::RtData &d)
 {
     Leaf *obj = (Leaf *)d.obj;
     if(!*rtosc_argument_string(msg)) { d.reply(d.loc, "i", obj->preset); return; }
-    int p = rtosc_argument(msg, 0).i;
-    if(p < 0) p = 0; if(p > 1) p = 1;
-    obj->preset = p;
     const LeafCfg &c = G->leaf;
+    int p = rtosc_argument(msg, 0).i - c.preset_lo;
+    if(p < 0) p = 0; if(p > 1) p = 1;
+    obj->preset = c.preset_lo + p;
     if(c.a_depends) obj->a = c.a_def[p];
     if(c.b_depends) obj->b = c.b_def[p];
     if(c.arr_depends) for(int i = 0; i < 8; ++i) obj->arr[i] = c.arr_def[p][i];
@@ -182,7 +183,7 @@ static void leaf_mode_cb(const char *msg, rtosc::RtData &d)
     if(v != obj->mode) {
         // a new mode selects preset 0 and re-initialises everything that depends on the preset
         const LeafCfg &c = G->leaf;
-        obj->preset = 0;
+        obj->preset = c.preset_lo;
         if(c.a_depends) obj->a = c.a_def[0];
         if(c.b_depends) obj->b = c.b_def[0];
         if(c.arr_depends) for(int i = 0; i < 8; ++i) obj->arr[i] = c.arr_def[0][i];
@@ -239,16 +240,17 @@ static inline void build(Cfg &c, Rng &r)
     for(auto &n : L.order) {
         Meta m;
         m.prop("parameter");
-        if(n == "preset") { m.map("default", "0").map("depends", "mode,"); lp.push_back({"preset::i", keep(m.m), 0, leaf_preset_cb}); }
+        const std::string k0 = "default " + std::to_string(L.preset_lo), k1 = "default " + std::to_string(L.preset_lo + 1);
+        if(n == "preset") { m.map("default", std::to_string(L.preset_lo)).map("depends", "mode,"); lp.push_back({"preset::i", keep(m.m), 0, leaf_preset_cb}); }
         else if(n == "a") {
             m.map("min", std::to_string(L.a_min)).map("max", std::to_string(L.a_max));
             m.map("enabled by", "on").map("depends", "on,");     // declared twice (the object's toggle re-initialises it)
-            if(L.a_depends) m.map("default depends", "preset").map("default 0", std::to_string(L.a_def[0])).map("default 1", std::to_string(L.a_def[1]));
+            if(L.a_depends) m.map("default depends", "preset").map(k0, std::to_string(L.a_def[0])).map(k1, std::to_string(L.a_def[1]));
             else m.map("default", std::to_string(L.a_def[0]));
             lp.push_back({"a::i", keep(m.m), 0, CB_a});
         } else if(n == "b") {
             m.map("min", fl(L.b_min)).map("max", fl(L.b_max));
-            if(L.b_depends) m.map("default depends", "preset").map("default 0", fl(L.b_def[0])).map("default", fl(L.b_def[1]));   // preset 1 through the plain default
+            if(L.b_depends) m.map("default depends", "preset").map(k0, fl(L.b_def[0])).map("default", fl(L.b_def[1]));   // preset 1 through the plain default
             else m.map("default", fl(L.b_def[0]));
             lp.push_back({"b::f", keep(m.m), 0, CB_b});
         } else if(n == "c") { m.map("min", "0").map("max", "127").map("default", std::to_string(L.c_def)); lp.push_back({"c::c", keep(m.m), 0, CB_c}); }
@@ -256,7 +258,7 @@ static inline void build(Cfg &c, Rng &r)
         else if(n == "o") { m.prop("enumerated"); for(size_t i = 0; i < L.opts.size(); ++i) m.map(vh::fmt("map %zu", i), L.opts[i]); m.map("default", L.opts[L.o_def]); lp.push_back({"o::i:c:S", keep(m.m), 0, CB_o}); }
         else if(n == "s") { std::string q = "\""; for(char ch : L.s_def) { if(ch == '"' || ch == '\\') q += '\\'; if(ch == '\n') q += "\\n"; else q += ch; } q += "\""; m.map("default", q); m.map("length", "16"); lp.push_back({"s::s", keep(m.m), 0, CB_s}); }
         else if(n == "arr") {
-            if(L.arr_depends) m.map("default depends", "preset").map("default 0", arr_text(L.arr_def[0])).map("default 1", arr_text(L.arr_def[1]));
+            if(L.arr_depends) m.map("default depends", "preset").map(k0, arr_text(L.arr_def[0])).map(k1, arr_text(L.arr_def[1]));
             else m.map("default", arr_text(L.arr_def[0]));
             lp.push_back({"arr#8::i", keep(m.m), 0, CB_arr});
         } else if(n == "farr") { std::string t = "["; for(int i = 0; i < 8; ++i) t += (i ? " " : "") + fl(L.farr_def[i]); m.map("default", t + "]"); lp.push_back({"farr#8::f", keep(m.m), 0, CB_farr}); }
@@ -331,6 +333,7 @@ static inline void gen_cfg(Cfg &c, Rng &r)
     c.has_many = r.chance(0.7); c.has_ptr = r.chance(0.5); c.has_top = r.chance(0.6);
     { static const char *EN[] = {"en", "en", "en", "leaf_on", "leafen"}; c.en_name = EN[r.below(5)]; }
     { static const char *VN[] = {"val", "val", "mode_val", "modeval"}; L.val_name = VN[r.below(4)]; }
+    L.preset_lo = r.chance(0.3) ? -1 : 0;
     c.ptr_gated = c.has_ptr && r.chance(0.4);
 }
 
